@@ -266,6 +266,9 @@ impl<const N: usize> Driver<N> {
         if self.cfg.allow_dup {
             b = b.allow_duplicates();
         }
+        if self.cfg.ignore_corrupted {
+            b = b.ignore_corrupted();
+        }
         if let Some(l) = self.cfg.dirty_limit {
             b = b.set_max_dirty_bytes_before_sync(l);
         }
